@@ -166,6 +166,11 @@ def configs(tier):
         out.append(("threshold", None, mv))
         for k in range(1, nmax + 1):
             out.append(("threshold", k, mv))
+    # min_voters=0 ("no minimum"): default thresholds of every strategy + the low fractional bar
+    for s in STRAT:
+        out.append((s, None, 0))
+    for s in ("majority", "supermajority", "weighted", "confidence", "bayesian"):
+        out.append((s, 0.25, 0))
     out.append(("emergency", None, 1))
     out.append(("emergency", 0.5, 1))
     return out
@@ -351,6 +356,14 @@ def task_tables(arg):
         for t in _multisets(sp, n):
             permit, viols, info, res = run_judge(cfg, sp, t)
             acc.add("executions")
+            if n == 0:
+                # the empty electorate is outside the quantifier (1..N voters): it is only the base of the
+                # add-a-non-voter edges and is not judged
+                if viols:
+                    acc.add("obs_empty_electorate_oddities")
+                if permit:
+                    tab[0] = 1
+                continue
             if n >= count_from:
                 acc.add("states")
             for key, what in viols:
@@ -516,7 +529,7 @@ def run(ctx):
         distinct_nontrivial=tot.get("nontrivial", 0),
         rule="every multiset of voter kinds (FULL alphabet: permit|block x weight{0,1/2,1,2} x confidence{0,1/4,5/16,1}, EXECUTE, "
         "abstain, defer, FAILURE, raising, unknown verdict, malformed confidence = 39 kinds for n<=nf; REDUCED 15 kinds for n<=nr) x every "
-        "configuration (7 strategies x default/1/4/3/4 thresholds or counts 1..nr x min_voters 1..3, EmergencyQuorum default and 0.5), each "
+        "configuration (7 strategies x default/1/4/3/4 thresholds or counts 1..nr x min_voters 1..3, plus min_voters 0 with default and 1/4 thresholds, EmergencyQuorum default and 0.5), each "
         "cast through the real run_vote; a state is a distinct (configuration, multiset); non-trivial = at least one permit vote and the "
         "min_voters gate is passed; transitions = edges of the ballot graph checked (block->permit, weight/confidence one grid step up, "
         "add one non-voter); orderings of multisets are re-run for the symmetry validation and counted only as executions",
